@@ -532,7 +532,7 @@ def check(ctx: vlib.Ctx) -> int:
             ctx.broken.append(f"sample-goal inputs could not be evaluated by the implementation: {type(e).__name__}: {e}")
     big = bool(ctx.broken)
     try:
-        fails = oracle(rng, ctx.scale(3, 14) * (2 if big else 1), ctx, heavy_count=ctx.scale(2, 8))
+        fails = oracle(rng, ctx.scale(6, 30) * (2 if big else 1), ctx, heavy_count=ctx.scale(2, 8))
     except Exception as e:
         import traceback
         fails = [{"what": f"implementation raised {type(e).__name__}: {e}", "traceback": traceback.format_exc()[-600:]}]
